@@ -8,6 +8,7 @@ Ops listed in `check_ops` are compared with the dense model (and their monitors 
 enforced); after any other op the model simply follows the implementation (adopt), so a
 property's explorer only ever judges its own clause.
 """
+import os
 import traceback
 
 from . import observe as O
@@ -165,8 +166,16 @@ def _work(chunk, acc):
                 acc.evals += 1
                 try:
                     spec.on_state(r, m2, report)
-                except Exception:
-                    acc.violation('HARNESS-ERROR', traceback.format_exc()[-2500:], case)
+                except Exception as e:
+                    # an exception that comes out of the library while the oracle merely looks at the table is a
+                    # finding about the table, not a defect of the harness
+                    tb = traceback.extract_tb(e.__traceback__)
+                    if tb and (os.sep + 'biom' + os.sep) in tb[-1].filename and 'mc' + os.sep not in tb[-1].filename:
+                        acc.violation('oracle-call-raised:' + type(e).__name__, 'the library raised while the state was '
+                                      'being observed: %s: %s (%s:%d)' % (type(e).__name__, e, os.path.basename(tb[-1].filename),
+                                                                         tb[-1].lineno), case)
+                    else:
+                        acc.violation('HARNESS-ERROR', traceback.format_exc()[-2500:], case)
             out.append((key, sname, hist + (op,)))
         acc.traces += 1
     if chunk:
